@@ -30,6 +30,7 @@ def run(ctx):
     ctx.guard(rule_c, ctx, ix)
     ctx.guard(rule_d, ctx, ix)
     ctx.guard(rule_e, ctx, ix)
+    ctx.guard(rule_f, ctx, ix)
 
 
 def rule_a(ctx, ix):
@@ -360,3 +361,68 @@ def rule_e(ctx, ix):
                                     'world axes a pixel axis depends on - for a sheared (triangular) matrix a needed world coordinate is '
                                     'frozen at its first value and world-to-pixel no longer undoes pixel-to-world'
                                     % (fname, norm(mr.direct[fname][v][0]) if direct else ''), shape=v, where='%s:%d' % (mod.relpath, f.lineno))
+
+
+TRANSFORM_SINKS = ('pixel2world_single_axis', 'world2pixel_single_axis', 'pixel_to_world_values', 'world_to_pixel_values',
+                   'pixel_to_world', 'world_to_pixel')
+
+
+def rule_f(ctx, ix):
+    """The entries of the caller's view are indices: they reach the pixel coordinates handed to the transformation only through
+    an indexing operation on the pixel axis (or normalised against the axis length), never as coordinate values."""
+    from ..flow import Flow
+    from ..relidx import make_classifier, REL, ABS, bind_iteration
+    R = 'C15.f'
+    ctx.describe(R, 'view entries reach the transformation as positions on the pixel axis, not as raw (possibly negative) indices', floor=2)
+    cc = ix.cls('glue.core.component.CoordinateComponent')
+    f = cc.resolve_func('_calculate')
+    if f is None:
+        raise AnalysisError('CoordinateComponent._calculate vanished')
+    params = f.params
+    if len(params) < 2:
+        raise AnalysisError('CoordinateComponent._calculate has no view parameter')
+    view_p = params[1]
+    classify = make_classifier({view_p})
+    sinks = []
+
+    def on_stmt(st, state):
+        exprs = [st]
+        if isinstance(st, (ast.If, ast.While)):
+            exprs = [st.test]
+        elif isinstance(st, (ast.For, ast.AsyncFor)):
+            exprs = [st.iter]
+        elif isinstance(st, (ast.With, ast.AsyncWith)):
+            exprs = [i.context_expr for i in st.items]
+        if isinstance(st, ast.Expr) and isinstance(st.value, ast.Call) and isinstance(st.value.func, ast.Attribute) \
+                and st.value.func.attr in ('append', 'extend', 'insert') and isinstance(st.value.func.value, ast.Name):
+            nm = st.value.func.value.id
+            tg = set()
+            for a in st.value.args[-1:]:
+                tg |= classify(a, state)
+            state[nm] = frozenset(set(state.get(nm, frozenset())) | tg)
+        for e in exprs:
+            for c in ast.walk(e):
+                if isinstance(c, ast.Call) and call_name(c) in TRANSFORM_SINKS:
+                    sinks.append((c, dict(state)))
+    fl = Flow(classify, on_stmt=on_stmt)
+    fl.run(f.node, {view_p: frozenset([REL])})
+    seen = set()
+    n = 0
+    for c, state in sinks:
+        if id(c) in seen:
+            continue
+        seen.add(id(c))
+        n += 1
+        args = list(c.args)
+        if call_name(c).endswith('_single_axis') and args:
+            args = args[1:]
+        bad = [a for a in args if REL in classify(a, state)]
+        ctx.ob(R, '%s `%s(...)`' % (f.construct, call_name(c)) + (' #%d' % n if n > 1 else ''),
+               'the pixel coordinates passed to the transformation are positions on the axis (np.arange(n)[index] or normalised), not raw view entries',
+               not bad,
+               detail='`%s` receives `%s`, which carries entries of the caller\'s view as they were supplied: a negative index (counted '
+                      'from the end by every other attribute kind) is transformed as the pixel coordinate -1, -2, ..., so the world '
+                      'attribute seen through that view differs from the same view of the full array'
+                      % (norm(c)[:80], ', '.join(norm(a) for a in bad)), where=where(f, c))
+    if n < 2:
+        raise AnalysisError('CoordinateComponent._calculate: only %d calls of the coordinate transformation found' % n)
